@@ -167,24 +167,24 @@ def c14n(data):
     return etree.tostring(etree.fromstring(data), method="c14n")
 
 
-def write_to(doc, fmt, dest, scratch):
-    """what destination kind `dest` received: ('text', str) or ('bytes', bytes)"""
+def write_to(doc, fmt, dest, scratch, **kw):
+    """what destination kind `dest` received: ('text', str) or ('bytes', bytes); `kw`: the writer's options, the same for every kind"""
     if dest == "ret":
-        return ("text", doc.serialize(format=fmt))
+        return ("text", doc.serialize(format=fmt, **kw))
     if dest == "text":
         s = io.StringIO()
-        doc.serialize(s, format=fmt)
+        doc.serialize(s, format=fmt, **kw)
         return ("text", s.getvalue())
     if dest == "bin":
         s = io.BytesIO()
-        doc.serialize(s, format=fmt)
+        doc.serialize(s, format=fmt, **kw)
         return ("bytes", s.getvalue())
     # a plain file name is used as it is: no URL syntax (%XX escapes, #, ?) is interpreted in it
     p = os.path.join(scratch, "écrit %%41 100%%25 #1-%s.out" % fmt)
     # the destination already exists and is longer than anything written here: what it held must be gone afterwards
     with open(p, "wb") as f:
         f.write(b"PREVIOUS CONTENT OF THE DESTINATION\n" * 4000)
-    doc.serialize(p, format=fmt)
+    doc.serialize(p, format=fmt, **kw)
     return ("bytes", open(p, "rb").read())
 
 
@@ -269,9 +269,14 @@ def one_document(ctx, doc, fmts, scratch, fails, model_ops, pending, doc_id):
                                      "written as %s: %r" % (f, e), {"fmt": f, "doc": doc_id, "history": "the documents of this run before %s" % (doc_id,)}))
             Registry.load_serializers()
             order = list(Registry.serializers.keys())
+    JSON_OPTS = [{}, {}, {"indent": 2}, {"sort_keys": True}, {"indent": 4, "ensure_ascii": False}]
     for fmt in fmts:
+        # the writer's options belong to the call, not to the destination kind: every kind is given the same ones
+        wkw = JSON_OPTS[(len(str(doc_id)) + len(doc.records)) % len(JSON_OPTS)] if fmt == "json" else {}
+        if wkw:
+            ctx.count("json-options:" + ",".join(sorted(wkw)))
         try:
-            ref_text = doc.serialize(format=fmt)
+            ref_text = doc.serialize(format=fmt, **wkw)
         except Exception as e:  # noqa
             ctx.count("serialize-raises:%s:%s" % (fmt, type(e).__name__))
             continue
@@ -279,7 +284,7 @@ def one_document(ctx, doc, fmts, scratch, fails, model_ops, pending, doc_id):
         written = {}
         for dest in DESTS:
             try:
-                written[dest] = write_to(doc, fmt, dest, scratch)
+                written[dest] = write_to(doc, fmt, dest, scratch, **wkw)
             except Exception as e:  # noqa
                 fails.append(Failure("oracle", None, "serialize to destination kind %s raised %r although the returned-string form exists" % (dest, e),
                                      {"fmt": fmt, "dest": dest, "doc": doc_id}))
@@ -328,7 +333,7 @@ def one_document(ctx, doc, fmts, scratch, fails, model_ops, pending, doc_id):
             try:
                 with open(p, "w", encoding=enc, newline="") as f:
                     f.write(header)
-                    doc.serialize(f, format=fmt)
+                    doc.serialize(f, format=fmt, **wkw)
                 got = open(p, "rb").read().decode(enc)
             except Exception as e:  # noqa
                 fails.append(Failure("oracle", None, "serialize to a text file object (%s) raised %r although the returned-string form exists" % (enc, e),
